@@ -194,7 +194,9 @@ func (l *List) M__bool__() (Object, error) {
 }
 
 func (l *List) M__iter__() (Object, error) {
-	return NewIterator(Tuple(l.Items)), nil
+	// The iterator indexes the list itself at every step, so items
+	// appended or deleted while iterating are seen (or not seen)
+	return NewIterator(l), nil
 }
 
 func (l *List) M__getitem__(key Object) (Object, error) {
